@@ -16,7 +16,8 @@ for mp in sorted(glob.glob(os.path.join(ROOT, 'seeded', '*', 'meta.json'))):
         d = last['diagnostic'][0]
         i = d.find('"info"')
         diag = d[i:i + 140].replace('|', '/') if i >= 0 else ''
-    rows.append((m['id'], m['property'], 'yes' if m.get('confirmed') else 'NO', title.replace('|', '/'), st(first), '%s (%s, %ss)' % (st(last), last.get('tier', ''), last.get('wall_s', '')), len(runs), diag))
+    by = '' if last.get('check', m['property']) == m['property'] else ' by the %s check' % last['check']
+    rows.append((m['id'], m['property'], 'yes' if m.get('confirmed') else 'NO', title.replace('|', '/'), st(first), '%s%s (%s, %ss)' % (st(last), by, last.get('tier', ''), last.get('wall_s', '')), len(runs), diag))
 with open(os.path.join(ROOT, 'seeded', 'README.md'), 'w') as f:
     f.write('# Seeded changes\n\nEach directory holds one change to issue9/mux written by a sub-agent that was given only the text of one property and a scratch worktree '
             '(nothing from /verif): `patch.diff`, the agent\'s demonstration test, its notes, and `meta.json` (what was confirmed and every run of the property\'s check '
@@ -26,6 +27,8 @@ with open(os.path.join(ROOT, 'seeded', 'README.md'), 'w') as f:
     f.write('| change | property | confirmed | what it is | first run | latest run | runs | diagnostic of the latest detection |\n|---|---|---|---|---|---|---|---|\n')
     for r in rows:
         f.write('| %s | %s | %s | %s | %s | %s | %d | `%s` |\n' % r)
-    det = sum(1 for r in rows if r[5].startswith('DETECTED'))
-    f.write('\n%d of %d seeded changes are detected by the quick tier of their property\'s check (latest run).\n' % (det, len(rows)))
+    det = sum(1 for r in rows if r[5].startswith('DETECTED') and ' by the ' not in r[5])
+    oth = sum(1 for r in rows if r[5].startswith('DETECTED') and ' by the ' in r[5])
+    f.write('\n%d of %d seeded changes are detected by the quick tier of their property\'s check (latest run); %d more by the check of the property they really violate '
+            '(the change does not contradict the statement it was filed under - DESIGN.md section 11.6).\n' % (det, len(rows), oth))
 print(len(rows))
